@@ -104,16 +104,56 @@ def tangent_data(k, d, length, ncomp):
     return p, u, length * u + ncomp * p
 
 
+def nparts(e):
+    """decode a spacelike normal: {"a","d","s"} -> s*(sinh a, cosh a d), or {"v"} = raw small
+    integers; returns (vector, a, d) with |a| the distance of the hyperplane from the origin"""
+    if "v" in e:
+        v = np.array(e["v"], dtype=float)
+        m = float(v[1:] @ v[1:])
+        q = m - v[0] ** 2
+        return v, math.asinh(v[0] / math.sqrt(q)), v[1:] / math.sqrt(m)
+    return spacelike_unit(e["a"], e["d"]) * e["s"], float(e["a"]), np.array(e["d"], dtype=float)
+
+
 # ------------------------------------------------------------------- spec strategies
 def _rmax(dmax):
     return min(math.tanh(dmax), 0.999)
 
 
 @st.composite
+def sdir(draw, n):
+    """unit direction; one in five is a lattice direction (entries in {-1,0,1}) because the
+    library's SVD-based frame completion behaves specially on such inputs"""
+    if n >= 2 and draw(st.integers(0, 4)) == 0:
+        v = [float(draw(st.integers(-1, 1))) for _ in range(n)]
+        v[draw(st.integers(0, n - 1))] = float(draw(st.sampled_from([-1, 1])))
+        nrm = math.sqrt(sum(x * x for x in v))
+        return [x / nrm for x in v]
+    return draw(gen.directions(n))
+
+
+@st.composite
+def kpoint(draw, n, rmax):
+    """Klein point; one in six has simple rational coordinates"""
+    if draw(st.integers(0, 5)) == 0:
+        v = [draw(st.sampled_from([0.0, 0.0, 0.5, -0.5, 0.25, -0.25, 0.75, -0.2]))
+             for _ in range(n)]
+        r = math.sqrt(sum(x * x for x in v))
+        if r > rmax:
+            v = [x * 0.5 * rmax / r for x in v]
+        return v
+    return draw(gen.klein_point(n, rmax=rmax))
+
+
+def kpoints(n, cnt, rmax):
+    return st.lists(kpoint(n, rmax), min_size=cnt, max_size=cnt)
+
+
+@st.composite
 def spec_origin_to(draw, n, shape, dmax):
     cnt = gen.prod(shape)
     return dict(ctor="origin_to", n=n, shape=shape,
-                pts=draw(gen.klein_points(n, cnt, rmax=_rmax(dmax))),
+                pts=draw(kpoints(n, cnt, _rmax(dmax))),
                 scales=[draw(gen.scalars_pm(0.2, 5.0)) for _ in range(cnt)],
                 fo=draw(st.sampled_from([True, False, None])))
 
@@ -121,8 +161,8 @@ def spec_origin_to(draw, n, shape, dmax):
 @st.composite
 def _tv_fields(draw, n, shape, dmax):
     cnt = gen.prod(shape)
-    return dict(pts=draw(gen.klein_points(n, cnt, rmax=_rmax(dmax))),
-                dirs=[draw(gen.directions(n)) for _ in range(cnt)],
+    return dict(pts=draw(kpoints(n, cnt, _rmax(dmax))),
+                dirs=[draw(sdir(n)) for _ in range(cnt)],
                 lens=[draw(fl(0.1, 10.0)) for _ in range(cnt)],
                 ncomp=[draw(st.one_of(st.just(0.0), fl(-2.0, 2.0))) for _ in range(cnt)],
                 scales=[draw(st.one_of(st.just(1.0), gen.scalars_pm(0.2, 5.0)))
@@ -149,7 +189,7 @@ def spec_isometry_to(draw, n, shape, dmax):
 def spec_timelike_to(draw, n, shape, dmax):
     cnt = gen.prod(shape)
     return dict(ctor="timelike_to", n=n, shape=shape,
-                pts=draw(gen.klein_points(n, cnt, rmax=_rmax(dmax))),
+                pts=draw(kpoints(n, cnt, _rmax(dmax))),
                 scales=[draw(gen.scalars_pm(0.2, 5.0)) for _ in range(cnt)],
                 fo=draw(st.sampled_from([True, False, None])))
 
@@ -158,8 +198,17 @@ def spec_timelike_to(draw, n, shape, dmax):
 def _normals(draw, n, cnt, amax):
     out = []
     for _ in range(cnt):
-        a = draw(st.one_of(st.just(0.0), fl(-amax, amax)))
-        out.append([a, draw(gen.directions(n)), draw(gen.scalars_pm(0.2, 5.0))])
+        if draw(st.integers(0, 5)) == 0:
+            # raw small-integer spacelike vector with <v,v> >= |v|^2 / cosh(2 amax)
+            vs = [draw(st.integers(-2, 2)) for _ in range(n)]
+            vs[draw(st.integers(0, n - 1))] = draw(st.sampled_from([-2, -1, 1, 2]))
+            m = sum(x * x for x in vs)
+            lim = 1.0 / math.cosh(2 * amax)
+            ok = [t for t in range(-3, 4) if (m - t * t) >= lim * (m + t * t) and m > t * t]
+            out.append({"v": [draw(st.sampled_from(ok))] + vs})
+        else:
+            a = draw(st.one_of(st.just(0.0), fl(-amax, amax)))
+            out.append({"a": a, "d": draw(sdir(n)), "s": draw(gen.scalars_pm(0.2, 5.0))})
     return out
 
 
@@ -398,7 +447,7 @@ def build_tv(f, n, shape):
 
 
 def _normal_array(normals, n, shape, composite_layout=True):
-    V = np.array([spacelike_unit(a, d) * s for (a, d, s) in normals])
+    V = np.array([nparts(e)[0] for e in normals])
     V = V.reshape(tuple(shape) + (n + 1,))
     if len(shape) and composite_layout:
         V = V[..., None, :]
@@ -412,7 +461,7 @@ def ideal_basis_of(spec, n, shape):
     S = simplex(n - 1) if n >= 2 else None
     out, worst = [], 1.0
     for i in range(cnt):
-        a, d, _ = spec["normals"][i]
+        _, a, d = nparts(spec["normals"][i])
         Q = np.array(spec["Q"][i], dtype=float).reshape(n - 1, n - 1)
         W = S @ Q                                        # n unit vectors of R^(n-1)
         base = np.concatenate([np.ones((n, 1)), np.zeros((n, 1)), W], axis=1)
@@ -546,10 +595,10 @@ def build(spec):
             V = _normal_array(spec["normals"], n, shape)
             Hp = Hyperplane(V.copy())
             T = Hp.reflection_across()
-            worst = max(math.cosh(2 * a) for (a, _, _) in spec["normals"])
+            worst = max(math.cosh(2 * nparts(e)[1]) for e in spec["normals"])
             return Built(T, n, shape, ctor, cond=worst, labels=lab)
         ib, worst = ideal_basis_of(spec, n, shape)
-        if any(abs(a) < 1e-15 for (a, _, _) in spec["normals"]):
+        if any(abs(nparts(e)[1]) < 1e-15 for e in spec["normals"]):
             b = Built(None, n, shape, ctor, labels=lab)
             b.excluded = "C02-subspace-reflection-through-origin"
             b.payload = ib
@@ -588,7 +637,7 @@ def test_vectors(pts, n):
     K = np.array(pts["int"], dtype=float).reshape(3, n)
     XI = np.concatenate([np.ones((3, 1)), K], axis=1) * np.array(pts["int_scales"])[:, None]
     XN = np.array([np.concatenate([[1.0], d]) * s for (d, s) in pts["ideal"]])
-    XE = np.array([spacelike_unit(a, d) * s for (a, d, s) in pts["ext"]])
+    XE = np.array([nparts(e)[0] for e in pts["ext"]])
     return XI, XN, XE
 
 
@@ -611,6 +660,11 @@ def check_isometry(ctx, T, n, shape, pts, name, cond=1.0, det_positive=False):
               (1e-8 * cond * nrm[..., None, None] ** 2), 1.0, M=M, Minv=Minv)
     ctx.small(name + ": inverse preserves the form",
               I.form_residual(Minv) / (1e-8 * cond * nrm ** 2), 1.0)
+    # singular values of an element of O(n,1) are e^d, e^-d, 1..1 with cosh d = |M_00|
+    m00 = np.abs(M[..., 0, 0])
+    ctx.small(name + ": |M|_2 = |M00| + sqrt(M00^2 - 1)",
+              (I.opnorm(M) - (m00 + np.sqrt(np.maximum(m00 ** 2 - 1.0, 0.0)))) /
+              (1e-6 * cond * nrm ** 2), 1.0, M=M)
     if det_positive:
         det = np.linalg.det(M)
         ctx.check(np.all(det > 0.5), name + ": force_oriented gives det > 0", det=det)
@@ -793,8 +847,8 @@ def causal_case(draw):
     pts = dict(int=K, int_scales=[draw(gen.scalars_pm(0.2, 5.0)) for _ in range(3)],
                ideal=[[draw(gen.directions(n)), draw(gen.scalars_pm(0.2, 5.0))]
                       for _ in range(2)],
-               ext=[[draw(st.sampled_from([-1.0, 1.0])) * draw(fl(2.0, 3.0)),
-                     draw(gen.directions(n)), draw(gen.scalars_pm(0.2, 5.0))]
+               ext=[dict(a=draw(st.sampled_from([-1.0, 1.0])) * draw(fl(2.0, 3.0)),
+                         d=draw(gen.directions(n)), s=draw(gen.scalars_pm(0.2, 5.0)))
                     for _ in range(2)])
     return dict(spec=spec, pts=pts)
 
@@ -850,7 +904,7 @@ def coxeter_exhaustive(tier):
     labs = [2, 3, 4, 5, 6, 7, 8, 0] if tier == "thorough" else [2, 3, 4, 5, 7, 0]
     pts = dict(int=[[0.3, -0.2], [-0.5, 0.1], [0.0, 0.7]], int_scales=[1.0, -2.0, 0.5],
                ideal=[[[0.6, 0.8], 1.0], [[-1.0, 0.0], -3.0]],
-               ext=[[0.5, [0.0, 1.0], 1.0], [-1.2, [0.8, -0.6], -2.0]])
+               ext=[dict(a=0.5, d=[0.0, 1.0], s=1.0), dict(a=-1.2, d=[0.8, -0.6], s=-2.0)])
     cases = []
     for (p, q, r) in hyperbolic_triples(labs):
         for via in (["triangle", "matrix"] if tier == "thorough" else ["triangle"]):
@@ -864,7 +918,8 @@ def coxeter_exhaustive(tier):
         pts3 = dict(int=[[0.3, -0.2, 0.1], [-0.5, 0.1, 0.4], [0.0, 0.0, 0.7]],
                     int_scales=[1.0, -2.0, 0.5],
                     ideal=[[[0.6, 0.8, 0.0], 1.0], [[0.0, 0.0, -1.0], -3.0]],
-                    ext=[[0.5, [0.0, 1.0, 0.0], 1.0], [-1.2, [0.8, 0.0, -0.6], -2.0]])
+                    ext=[dict(a=0.5, d=[0.0, 1.0, 0.0], s=1.0),
+                         dict(a=-1.2, d=[0.8, 0.0, -0.6], s=-2.0)])
         c4 = [dict(spec=dict(ctor="coxeter_hyperbolic_rep", n=3, shape=[],
                              cox=_sym_from_labels(4, lab).tolist(), via="matrix",
                              style="alpha", word=[0, 1, 2, 3, 0, 2, 1, 3],
